@@ -59,6 +59,11 @@ Clauses(pre, e) ==
   C16_OthersUntouched |-> \A id \in DOMAIN post.ana :
                              (id # e.id) => post.ana[id] = f0.ana[id],
   C16_BytesOfOthers |-> e.others_bytes_same,
+  \* storing a curve whose fit is the stored one (whatever else happened to
+  \* the curve object meanwhile) touches the user fields only
+  C16_ResaveUserFieldsOnly |->
+      (e.id \in Load(f0) /\ f0.ana[e.id].fit = e.fit /\ e.out = "ok")
+         => e.fitpart_same,
   C16_RefusedFileUnchanged |-> (e.out = "refused") => e.file_bytes_same,
   \* owed as soon as anything loadable is stored
   \* the container only ever grows: what was loadable stays loadable, with
